@@ -282,7 +282,7 @@ class ExprRun:
         for gi, g in enumerate(groups):
             gens.append(("tu%d" % gi, gen_expr.tu_text(g)))
         try:
-            self.exe = core.build_harness(self.variant, self.name, [], gen_sources=gens)
+            self.exe = core.build_harness(self.variant, self.name, [], gen_sources=gens, pch_text=gen_expr.HEADERS)
             return
         except core.HarnessFailure as e:
             first_err = str(e)
@@ -309,7 +309,7 @@ class ExprRun:
         groups = [self.progs[i:i + self.per_tu] for i in range(0, len(self.progs), self.per_tu)]
         for gi, g in enumerate(groups):
             gens.append(("tu%d" % gi, gen_expr.tu_text(g)))
-        self.exe = core.build_harness(self.variant, self.name + "-f", [], gen_sources=gens)
+        self.exe = core.build_harness(self.variant, self.name + "-f", [], gen_sources=gens, pch_text=gen_expr.HEADERS)
 
     # ------------------------------------------------------------------
     def run_batch(self, lines, env=None):
